@@ -469,7 +469,7 @@ def solver_failures(cfg, out):
 
 
 def gen_solver_cfgs(tier, rng):
-    nrep = 40 if tier == "quick" else 400
+    nrep = 120 if tier == "quick" else 600
     for k in range(nrep):
         r = rng.randint(1, 4)
         m = rng.randint(r, r + 3)
